@@ -13,5 +13,6 @@ class NodeField(str, Enum):
 
 class EdgeField(str, Enum):
     kwarg_name = 'kwarg_name'
+    extra_kwarg_names = 'extra_kwarg_names'
     is_switch = 'is_switch'
     case_branch = 'case_branch'
